@@ -113,7 +113,7 @@ fn make_record(ch: &[u32], t: usize, variant: u8) -> Value {
 }
 
 pub fn run(ctx: &mut Ctx) {
-    ctx.rule = "Inputs: generated programs with >= 4 resources across bind groups (buffer addresses in several groups for the inline blocks, resources declared out of slot order), 2-6 statics used per function, overload sets / template instances / structs whose names collide with generated `_N` suffixes, include graphs with #pragma once reached by two paths, and rejected variants (diagnostics); x 4 targets x {all, named, no-pipeline} x layout validation on/off. Oracle: the full result (sources, stages, metadata, state or diagnostic text) is identical across 4 evaluations in one process (every compile builds fresh HashMaps with fresh seeds) and across 8 freshly spawned processes. Non-trivial = the input has a pipeline and >= 4 resources or a forced name collision. Distinct = hash of the record.".into();
+    ctx.rule = "Inputs: generated programs with >= 4 resources across bind groups (buffer addresses in several groups for the inline blocks, resources declared out of slot order), 2-6 statics used per function, overload sets / template instances / structs whose names collide with generated `_N` suffixes, include graphs with #pragma once reached by two paths, rejected variants (diagnostics), and overload sets of one name (also reserved words) in the global scope and in sibling / nested namespaces; x 4 targets x {all, named, no-pipeline} x layout validation on/off. Oracle: the full result (sources, stages, metadata, state or diagnostic text) is identical across 4 evaluations in one process (every compile builds fresh HashMaps with fresh seeds) and across 8 freshly spawned processes. Non-trivial = the input has a pipeline and >= 4 resources or a forced name collision. Distinct = hash of the record.".into();
     ctx.assumptions.push("no source of non-determinism other than hash seeds exists in the code read (no clock, threads, addresses or environment access)".into());
     if !ctx.replay_tier(&check_record) {
         return;
@@ -124,6 +124,44 @@ pub fn run(ctx: &mut Ctx) {
         ctx.tier.pick(1_500, 40_000),
         strat,
         |(ch, t, v): &(Vec<u32>, usize, u8)| make_record(ch, *t, *v),
+        check_record,
+    );
+    // several scopes that need generated names from the same base name: overload sets of one name in sibling and
+    // nested namespaces and at global scope, reserved words as names in several namespaces
+    ctx.run_prop(
+        "namespaced_overload_sets",
+        ctx.tier.pick(600, 15_000),
+        || (proptest::collection::vec((0usize..4, 0usize..3, 1usize..4), 2..6), 0usize..4, any::<bool>()),
+        |(groups, t, validate): &(Vec<(usize, usize, usize)>, usize, bool)| {
+            // (namespace index, name index, number of overloads)
+            let ns_names = ["", "Lighting", "Fog", "Lighting::Detail"];
+            let fn_names = ["blend", "main", "thread"];
+            let param_types = ["float", "int", "uint", "float2"];
+            let mut text = String::new();
+            let mut calls = Vec::new();
+            let mut seen = std::collections::HashSet::new();
+            for (ns, name, count) in groups {
+                if !seen.insert((*ns, *name)) {
+                    continue;
+                }
+                let path: Vec<&str> = if ns_names[*ns].is_empty() { Vec::new() } else { ns_names[*ns].split("::").collect() };
+                for p in &path {
+                    text.push_str(&format!("namespace {} {{ ", p));
+                }
+                text.push('\n');
+                for k in 0..*count {
+                    text.push_str(&format!("    int {}({} a) {{ return {}; }}\n", fn_names[*name], param_types[k], 10 * ns + k));
+                    let arg = ["1.5", "(int)2", "3u", "float2(1.0, 2.0)"][k];
+                    calls.push(format!("{}{}{}({})", ns_names[*ns], if path.is_empty() { "" } else { "::" }, fn_names[*name], arg));
+                }
+                for _ in &path {
+                    text.push_str("} ");
+                }
+                text.push('\n');
+            }
+            text.push_str(&format!("int user() {{\n    return {};\n}}\n", if calls.is_empty() { "0".to_string() } else { calls.join(" + ") }));
+            json!({"files": [["main.rssl", text]], "tgt": Tgt::ALL4[*t % 4].name(), "mode": "nopipe", "validate": validate, "rich": true})
+        },
         check_record,
     );
     // cross-process: a deterministic sample of inputs evaluated in 8 fresh processes
